@@ -427,6 +427,10 @@ def gen_C11(rng, tier, seed):
     g = Gen(rng, "C11", tier, allow_restart=False, nops=rng.choice([2, 4, 6, 8, 12, 16, 24] if tier == "quick" else [4, 8, 12, 16, 24, 32, 48, 60]))
     c = g.case(seed)
     c["ops"] = [o for o in c["ops"] if o["op"] != "reopen"]
+    if any(o["op"] == "create_many" for o in c["ops"]):
+        # keep the enumeration affordable: the many-ids request, one request before, two after
+        k_ = [i for i, o in enumerate(c["ops"]) if o["op"] == "create_many"][0]
+        c["ops"] = c["ops"][max(0, k_ - 1) : k_ + 3]
     n = len(c["ops"])
     c["config"]["backend"] = "real" if rng.random() < 0.2 else "sim"
     c["multi_restarts"] = [sorted(rng.sample(range(n + 1), min(n + 1, rng.randint(2, 5)))) for _ in range(rng.choice([0, 1, 2]))]
